@@ -149,12 +149,12 @@ Proof.
     unfold seek_row in S. destruct (find_ent k0 (ents ts)) as [z|] eqn:FE.
     + unfold find_ent in FE. apply find_some in FE. destruct FE as [Hz Ez]. apply Z.eqb_eq in Ez.
       assert (z = y) by (apply (NoDup_id_eq (ents ts)); try assumption; congruence). subst z.
-      unfold pk_val in S. rewrite PP, Vy in S. discriminate.
+      unfold pk_val in S. rewrite PP, Vy, Ly in S. discriminate.
     + unfold find_ent in FE. pose proof (find_none _ _ FE y Hy) as N. cbn beta in N. rewrite Iy, Z.eqb_refl in N. discriminate.
   - (* found: DELETE's selection would be the same single entry *)
     assert (Hs : select_rows ds ts w = e :: l) by (unfold select_rows; rewrite P, S; reflexivity).
     assert (Hl : l = []).
-    { unfold seek_row in S. destruct (find_ent k (ents ts)); [|discriminate]. destruct (value_eqb _ v); [|discriminate].
+    { unfold seek_row in S. destruct (find_ent k (ents ts)); [|discriminate]. destruct (live _ && value_eqb _ v); [|discriminate].
       injection S as _ <-. reflexivity. }
     subst l. rewrite <- (select_rows_live ds ts next w T Hu); rewrite Hs; [reflexivity|exact Hd].
 Qed.
@@ -286,7 +286,6 @@ Proof.
         -- assert (Hm : idx_mem nv (get_idx ts i) = true) by (unfold idx_mem; rewrite Fi; reflexivity).
            rewrite (Hex i d Hd K nv Nv) in Hm. rewrite Hm. cbn [andb].
            destruct (owner_id_some ts i nv Hm) as [o Ho]. rewrite Ho in Hc.
-           destruct (match pk_pos ds with None => true | Some _ => false end); [discriminate|].
            destruct (k =? o) eqn:Ek; [|discriminate]. apply Z.eqb_eq in Ek. subst k.
            destruct (owner_id_spec ts i nv o Ho) as [y [Hy [Ly [Vy Iy]]]].
            rewrite negb_involutive.
@@ -315,7 +314,6 @@ Proof.
   destruct (assoc_set i sets) as [nv|]; [|intros H; split; [reflexivity|exact H]].
   destruct (is_key d && negb (is_null nv) && nonempty_l sel); [|intros H; split; [reflexivity|exact H]].
   destruct (two_plus sel); [discriminate|].
-  destruct (match pk_pos all with None => true | Some _ => false end); [discriminate|].
   destruct (idx_find nv (get_idx ts i)) as [k|]; [|intros H; split; [reflexivity|exact H]].
   destruct (owner_id ts i nv) as [o|]; [|intros H; split; [reflexivity|exact H]].
   destruct (k =? o); [intros H; split; [reflexivity|exact H]|discriminate].
@@ -343,89 +341,83 @@ Proof.
 Qed.
 
 (* ---------------------------------------------------------------- the indexes after UPDATE *)
-Lemma idx_upd_length : forall ixs all ds i sets pairs, length (idx_upd_from ixs all ds i sets pairs) = length ixs.
+Lemma idx_upd_length : forall ixs ds i sets trips, length (idx_upd_from ixs ds i sets trips) = length ixs.
 Proof.
-  induction ixs as [|ix ixs IH]; intros all ds i sets pairs; [reflexivity|]. destruct ds as [|d ds]; [reflexivity|].
+  induction ixs as [|ix ixs IH]; intros ds i sets trips; [reflexivity|]. destruct ds as [|d ds]; [reflexivity|].
   cbn [idx_upd_from length]. rewrite IH. reflexivity.
 Qed.
-Lemma idx_upd_nth : forall ixs all ds i0 sets pairs i d,
+Lemma idx_upd_nth : forall ixs ds i0 sets trips i d,
   nth_error ds i = Some d -> (i < length ixs)%nat ->
-  nth i (idx_upd_from ixs all ds i0 sets pairs) [] =
-  if is_key d && modified sets (i0 + i)
-  then idx_upd_pass all (i0 + i) pairs (idx_upd_pass all (i0 + i) pairs (nth i ixs []))
-  else nth i ixs [].
+  nth i (idx_upd_from ixs ds i0 sets trips) [] =
+  if is_key d && modified sets (i0 + i) then idx_upd_pass (i0 + i) trips (nth i ixs []) else nth i ixs [].
 Proof.
-  induction ixs as [|ix ixs IH]; intros all ds i0 sets pairs i d Hd Hi; [cbn [length] in Hi; lia|].
+  induction ixs as [|ix ixs IH]; intros ds i0 sets trips i d Hd Hi; [cbn [length] in Hi; lia|].
   destruct ds as [|d0 ds]; [destruct i; discriminate|]. cbn [idx_upd_from]. destruct i as [|i].
   - cbn [nth_error] in Hd. injection Hd as ->. cbn [nth]. rewrite Nat.add_0_r. reflexivity.
-  - cbn [nth_error] in Hd. cbn [nth]. rewrite (IH all ds (S i0) sets pairs i d Hd) by (cbn [length] in Hi; lia).
+  - cbn [nth_error] in Hd. cbn [nth]. rewrite (IH ds (S i0) sets trips i d Hd) by (cbn [length] in Hi; lia).
     replace (S i0 + i)%nat with (i0 + S i)%nat by lia. reflexivity.
 Qed.
 
-Definition pass_step (all : list cdecl) (i : nat) (a : index) (p : row * row) : index :=
-  let ov := col_val i (fst p) in let nv := col_val i (snd p) in
+Definition pass_step (i : nat) (a : index) (p : Z * row * row) : index :=
+  let ov := col_val i (snd (fst p)) in let nv := col_val i (snd p) in
   let a1 := if is_null ov then a else idx_del ov a in
-  if is_null nv then a1 else match stored_pk all (snd p) with Some k => idx_ins nv k a1 | None => a1 end.
-Lemma idx_upd_pass_fold all i pairs ix : idx_upd_pass all i pairs ix = fold_left (pass_step all i) pairs ix.
+  if is_null nv then a1 else idx_ins nv (fst (fst p)) a1.
+Lemma idx_upd_pass_fold i trips ix : idx_upd_pass i trips ix = fold_left (pass_step i) trips ix.
 Proof. reflexivity. Qed.
 
 Lemma null_eqb_false u v : is_null u = true -> is_null v = false -> value_eqb u v = false.
 Proof. intros Hu Hv. apply is_null_eq in Hu. subst u. destruct v; try discriminate; reflexivity. Qed.
 
-Lemma pass_step_mem all i a p v :
+Lemma pass_step_mem i a p v :
   is_null v = false ->
-  idx_mem v (pass_step all i a p) =
-  (idx_mem v a && negb (value_eqb (col_val i (fst p)) v)) ||
-  (negb (is_null (col_val i (snd p))) && (match stored_pk all (snd p) with Some _ => true | None => false end) &&
-   value_eqb (col_val i (snd p)) v).
+  idx_mem v (pass_step i a p) =
+  (idx_mem v a && negb (value_eqb (col_val i (snd (fst p))) v)) ||
+  (negb (is_null (col_val i (snd p))) && value_eqb (col_val i (snd p)) v).
 Proof.
   intros Nv. unfold pass_step.
-  set (ov := col_val i (fst p)). set (nv := col_val i (snd p)).
+  set (ov := col_val i (snd (fst p))). set (nv := col_val i (snd p)).
   assert (H1 : idx_mem v (if is_null ov then a else idx_del ov a) = idx_mem v a && negb (value_eqb ov v)).
   { destruct (is_null ov) eqn:No; [rewrite (null_eqb_false ov v No Nv), andb_true_r; reflexivity|apply idx_mem_del]. }
   destruct (is_null nv) eqn:Nn; cbn [negb andb].
   - rewrite H1, orb_false_r. reflexivity.
-  - destruct (stored_pk all (snd p)) as [k|]; cbn [andb].
-    + rewrite idx_mem_ins, H1. reflexivity.
-    + rewrite H1, orb_false_r. reflexivity.
+  - rewrite idx_mem_ins, H1. reflexivity.
 Qed.
 
 (* every new value NULL: only removals *)
-Lemma pass_null_mem all i v : is_null v = false -> forall pairs ix,
-  (forall p, In p pairs -> is_null (col_val i (snd p)) = true) ->
-  idx_mem v (fold_left (pass_step all i) pairs ix) =
-  idx_mem v ix && negb (existsb (fun p => value_eqb (col_val i (fst p)) v) pairs).
+Lemma pass_null_mem i v : is_null v = false -> forall trips ix,
+  (forall p, In p trips -> is_null (col_val i (snd p)) = true) ->
+  idx_mem v (fold_left (pass_step i) trips ix) =
+  idx_mem v ix && negb (existsb (fun p => value_eqb (col_val i (snd (fst p))) v) trips).
 Proof.
-  intros Nv. induction pairs as [|p pairs IH]; intros ix Hn.
+  intros Nv. induction trips as [|p trips IH]; intros ix Hn.
   - cbn [fold_left existsb negb]. rewrite andb_true_r. reflexivity.
   - cbn [fold_left existsb]. rewrite IH by (intros q Hq; apply Hn; right; exact Hq).
-    rewrite (pass_step_mem all i ix p v Nv), (Hn p (or_introl eq_refl)). cbn [negb andb]. rewrite orb_false_r.
+    rewrite (pass_step_mem i ix p v Nv), (Hn p (or_introl eq_refl)). cbn [negb andb]. rewrite orb_false_r.
     rewrite negb_orb, andb_assoc. reflexivity.
 Qed.
 
-Lemma idx_upd_sub_pass all i : forall pairs ix v k,
-  In (v, k) (fold_left (pass_step all i) pairs ix) -> In (v, k) ix \/ is_null v = false.
+Lemma idx_upd_sub_pass i : forall trips ix v k,
+  In (v, k) (fold_left (pass_step i) trips ix) -> In (v, k) ix \/ is_null v = false.
 Proof.
-  induction pairs as [|p pairs IH]; intros ix v k H; [left; exact H|]. cbn [fold_left] in H.
+  induction trips as [|p trips IH]; intros ix v k H; [left; exact H|]. cbn [fold_left] in H.
   destruct (IH _ v k H) as [H1|H1]; [|right; exact H1]. unfold pass_step in H1.
-  set (a1 := if is_null (col_val i (fst p)) then ix else idx_del (col_val i (fst p)) ix) in *.
+  set (a1 := if is_null (col_val i (snd (fst p))) then ix else idx_del (col_val i (snd (fst p))) ix) in *.
   assert (Ha1 : forall x, In x a1 -> In x ix).
-  { intros x Hx. unfold a1 in Hx. destruct (is_null (col_val i (fst p))); [exact Hx|]. unfold idx_del in Hx. apply filter_In in Hx. tauto. }
+  { intros x Hx. unfold a1 in Hx. destruct (is_null (col_val i (snd (fst p)))); [exact Hx|]. unfold idx_del in Hx. apply filter_In in Hx. tauto. }
   destruct (is_null (col_val i (snd p))) eqn:Nn; [left; exact (Ha1 _ H1)|].
-  destruct (stored_pk all (snd p)) as [k0|]; [|left; exact (Ha1 _ H1)].
   unfold idx_ins in H1. destruct (idx_mem (col_val i (snd p)) a1); [left; exact (Ha1 _ H1)|].
   apply in_app_or in H1. destruct H1 as [H1|[H1|[]]]; [left; exact (Ha1 _ H1)|]. injection H1 as <- _. right. exact Nn.
 Qed.
-Lemma idx_upd_sub : forall ixs all ds i0 sets pairs ix v k,
-  In ix (idx_upd_from ixs all ds i0 sets pairs) -> In (v, k) ix ->
+Lemma idx_upd_sub : forall ixs ds i0 sets trips ix v k,
+  In ix (idx_upd_from ixs ds i0 sets trips) -> In (v, k) ix ->
   (exists ix', In ix' ixs /\ In (v, k) ix') \/ is_null v = false.
 Proof.
-  induction ixs as [|ix0 ixs IH]; intros all ds i0 sets pairs ix v k Hin Hp; [destruct Hin|].
+  induction ixs as [|ix0 ixs IH]; intros ds i0 sets trips ix v k Hin Hp; [destruct Hin|].
   destruct ds as [|d ds]; [left; exists ix; split; assumption|]. cbn [idx_upd_from] in Hin. destruct Hin as [<-|Hin].
   - destruct (is_key d && modified sets i0); [|left; exists ix0; split; [left; reflexivity|exact Hp]].
-    rewrite !idx_upd_pass_fold in Hp. destruct (idx_upd_sub_pass all i0 _ _ v k Hp) as [H|H]; [|right; exact H].
-    destruct (idx_upd_sub_pass all i0 _ _ v k H) as [H'|H']; [left; exists ix0; split; [left; reflexivity|exact H']|right; exact H'].
-  - destruct (IH all ds (S i0) sets pairs ix v k Hin Hp) as [[ix' [H1 H2]]|H]; [left; exists ix'; split; [right; exact H1|exact H2]|right; exact H].
+    rewrite idx_upd_pass_fold in Hp. destruct (idx_upd_sub_pass i0 _ _ v k Hp) as [H|H]; [|right; exact H].
+    left; exists ix0; split; [left; reflexivity|exact H].
+  - destruct (IH ds (S i0) sets trips ix v k Hin Hp) as [[ix' [H1 H2]]|H]; [left; exists ix'; split; [right; exact H1|exact H2]|right; exact H].
 Qed.
 
 (* the live holders of a value after the rows of the selection have been rewritten *)
@@ -481,28 +473,16 @@ Proof.
   - cbn [nth_error] in Hd. cbn [nth]. apply (IH vs r i d H2 Hd M). cbn [length] in Hi. lia.
 Qed.
 
-Lemma stored_pk_some ds (r : row) :
-  row_ok ds r = true -> row_fits (length ds) r = true -> pk_pos ds <> None -> stored_pk ds r <> None.
-Proof.
-  intros Hok Hfit Hpk. unfold stored_pk. destruct (pk_pos ds) as [ip|] eqn:PP; [|contradiction].
-  destruct (pk_pos_from_key ds 0 ip PP) as [d [Hd [K _]]]. rewrite Nat.sub_0_r in Hd.
-  assert (Hi : (ip < length r)%nat) by (rewrite (row_fits_len _ _ Hfit); apply nth_error_Some; rewrite Hd; discriminate).
-  assert (M : must_nn d = true) by (unfold must_nn; rewrite K; apply orb_true_r).
-  pose proof (row_ok_nn ds r r ip d Hok Hd M Hi) as Nn. fold (col_val ip r) in Nn.
-  pose proof (fits_col _ r ip Hfit) as Hf. destruct (col_val ip r); discriminate.
-Qed.
-
 Lemma exact_upd_col ds ts next sets w i d v :
   tinv ds ts next -> uniq_ok ds (visible ts) = true ->
   nth_error ds i = Some d -> is_key d = true -> is_null v = false ->
   upd_key_class_from ds [d] i ts sets (live_sel ts w) = 0 ->
-  (pk_pos ds <> None -> forall e, In e (live_sel ts w) -> stored_pk ds (upd_row sets (e_row e)) <> None) ->
-  let pairs := map (fun e => (e_row e, upd_row sets (e_row e))) (live_sel ts w) in
-  idx_mem v (if modified sets i then idx_upd_pass ds i pairs (idx_upd_pass ds i pairs (get_idx ts i)) else get_idx ts i) =
+  let pairs := map (fun e => (e_id e, e_row e, upd_row sets (e_row e))) (live_sel ts w) in
+  idx_mem v (if modified sets i then idx_upd_pass i pairs (get_idx ts i) else get_idx ts i) =
   live_has (mkT (rewrite_rows (live_sel ts w) sets (ents ts))
-                (idx_upd_from (idxs ts) ds ds 0 sets pairs)) i v.
+                (idx_upd_from (idxs ts) ds 0 sets pairs)) i v.
 Proof.
-  intros T Hu Hd K Nv Hc Hst pairs. pose proof T as [Hex Hnn [Hnd Hid] [Hrf Hli]].
+  intros T Hu Hd K Nv Hc pairs. pose proof T as [Hex Hnn [Hnd Hid] [Hrf Hli]].
   assert (Hi : (i < length ds)%nat) by (apply nth_error_Some; rewrite Hd; discriminate).
   assert (Hui : nodupv (colvals i (visible ts)) = true) by (unfold uniq_ok in Hu; exact (uniq_from_nth ds 0 (visible ts) i d Hu Hd K)).
   rewrite (live_has_rewrite ts w sets _ i v Hnd). rewrite <- (live_has_tomb_expr ts w (idxs ts) i v).
@@ -519,13 +499,13 @@ Proof.
     { intros e He. rewrite col_upd, A by (apply Hlen; exact He). reflexivity. }
     rewrite (existsb_ext_in _ (fun _ => value_eqb nv v)) by (intros e He; rewrite (Hcol e He); reflexivity).
     rewrite !idx_upd_pass_fold.
-    assert (HX : existsb (fun p : row * row => value_eqb (col_val i (fst p)) v) pairs = X).
+    assert (HX : existsb (fun p : Z * row * row => value_eqb (col_val i (snd (fst p))) v) pairs = X).
     { unfold pairs, X. rewrite existsb_map'. reflexivity. }
     destruct (is_null nv) eqn:Nn.
     + (* assigned NULL: the old values leave the index *)
       assert (Hp : forall p, In p pairs -> is_null (col_val i (snd p)) = true).
       { intros p Hp. unfold pairs in Hp. apply in_map_iff in Hp. destruct Hp as [e [<- He]]. cbn [snd]. rewrite (Hcol e He). exact Nn. }
-      rewrite (pass_null_mem ds i v Nv pairs _ Hp), (pass_null_mem ds i v Nv pairs _ Hp), HX.
+      rewrite (pass_null_mem i v Nv pairs _ Hp), HX.
       fold (get_idx ts i). rewrite (Hex i d Hd K v Nv). fold L.
       assert (E0 : existsb (fun _ : entry => value_eqb nv v) (live_sel ts w) = false).
       { rewrite (null_eqb_false nv v Nn Nv). clear. induction (live_sel ts w) as [|x l IH]; [reflexivity|exact IH]. }
@@ -535,11 +515,8 @@ Proof.
       * unfold pairs. cbn [map fold_left existsb]. fold (get_idx ts i). rewrite (Hex i d Hd K v Nv). fold L.
         unfold X. cbn [existsb negb]. rewrite andb_true_r, orb_false_r. reflexivity.
       * unfold pairs. cbn [map fold_left existsb]. rewrite orb_false_r.
-        rewrite (pass_step_mem ds i _ _ v Nv), (pass_step_mem ds i _ _ v Nv). cbn [fst snd].
+        rewrite (pass_step_mem i _ _ v Nv). cbn [fst snd].
         rewrite (Hcol e (or_introl eq_refl)), Nn. cbn [negb andb].
-        cbn [nonempty_l two_plus] in Hc.
-        assert (Hpk : pk_pos ds <> None) by (destruct (pk_pos ds); [discriminate|discriminate Hc]).
-        pose proof (Hst Hpk e (or_introl eq_refl)) as Hs. destruct (stored_pk ds (upd_row sets (e_row e))); [|contradiction].
         fold (get_idx ts i). rewrite (Hex i d Hd K v Nv). fold L.
         unfold X. cbn [existsb]. rewrite orb_false_r.
         destruct L; destruct (value_eqb (col_val i (e_row e)) v); destruct (value_eqb nv v); reflexivity.
@@ -562,11 +539,10 @@ Qed.
 Lemma tinv_upd ds ts next sets w :
   tinv ds ts next -> uniq_ok ds (visible ts) = true -> sets_ok (length ds) sets = true ->
   upd_key_class_from ds ds 0 ts sets (live_sel ts w) = 0 ->
-  (pk_pos ds <> None -> forall e, In e (live_sel ts w) -> stored_pk ds (upd_row sets (e_row e)) <> None) ->
   tinv ds (mkT (rewrite_rows (live_sel ts w) sets (ents ts))
-               (idx_upd_from (idxs ts) ds ds 0 sets (map (fun e => (e_row e, upd_row sets (e_row e))) (live_sel ts w)))) next.
+               (idx_upd_from (idxs ts) ds 0 sets (map (fun e => (e_id e, e_row e, upd_row sets (e_row e))) (live_sel ts w)))) next.
 Proof.
-  intros T Hu Hs Hc Hst. pose proof T as [Hex Hnn [Hnd Hid] [Hrf Hli]]. constructor.
+  intros T Hu Hs Hc. pose proof T as [Hex Hnn [Hnd Hid] [Hrf Hli]]. constructor.
   - intros i d Hd K v Nv.
     assert (Hi : (i < length ds)%nat) by (apply nth_error_Some; rewrite Hd; discriminate).
     (* the class of column i alone *)
@@ -579,10 +555,10 @@ Proof.
         - cbn [nth_error] in Hd'. injection Hd' as ->. rewrite Nat.add_0_r. exact C1.
         - cbn [nth_error] in Hd'. replace (i0 + S i')%nat with (S i0 + i')%nat by lia. exact (IH (S i0) i' Hd' C2). }
       exact (G ds 0%nat i Hd Hc). }
-    unfold get_idx at 1. cbn [idxs]. rewrite (idx_upd_nth _ ds ds 0 sets _ i d Hd) by lia. rewrite K. cbn [andb Nat.add].
+    unfold get_idx at 1. cbn [idxs]. rewrite (idx_upd_nth _ ds 0 sets _ i d Hd) by lia. rewrite K. cbn [andb Nat.add].
     fold (get_idx ts i).
-    exact (exact_upd_col ds ts next sets w i d v T Hu Hd K Nv Hci Hst).
-  - intros ix v k Hin Hp. cbn [idxs] in Hin. destruct (idx_upd_sub _ _ _ _ _ _ _ _ _ Hin Hp) as [[ix' [H1 H2]]|H]; [exact (Hnn ix' v k H1 H2)|exact H].
+    exact (exact_upd_col ds ts next sets w i d v T Hu Hd K Nv Hci).
+  - intros ix v k Hin Hp. cbn [idxs] in Hin. destruct (idx_upd_sub _ _ _ _ _ _ _ _ Hin Hp) as [[ix' [H1 H2]]|H]; [exact (Hnn ix' v k H1 H2)|exact H].
   - unfold ids_ok. cbn [ents]. rewrite rewrite_ids. split; [exact Hnd|].
     intros e He. destruct (rewrite_in _ _ _ _ He) as [x [Hx [Hi _]]]. rewrite <- Hi. exact (Hid x Hx).
   - unfold rows_ok. cbn [ents idxs]. split.
@@ -713,10 +689,22 @@ Proof.
   induction ds as [|d ds IH]; intros i sets k nr H; [reflexivity|]. cbn [key_mod_from] in H. apply orb_false_iff in H.
   destruct H as [H1 H2]. cbn [uq_upd_from]. rewrite H1, (IH _ _ _ _ H2). reflexivity.
 Qed.
-Lemma idx_upd_nomod : forall ixs all ds i sets pairs, key_mod_from ds i sets = false -> idx_upd_from ixs all ds i sets pairs = ixs.
+Lemma idx_upd_nomod : forall ixs ds i sets pairs, key_mod_from ds i sets = false -> idx_upd_from ixs ds i sets pairs = ixs.
 Proof.
-  induction ixs as [|ix ixs IH]; intros all ds i sets pairs H; [reflexivity|]. destruct ds as [|d ds]; [reflexivity|].
-  cbn [key_mod_from] in H. apply orb_false_iff in H. destruct H as [H1 H2]. cbn [idx_upd_from]. rewrite H1, (IH _ _ _ _ _ H2). reflexivity.
+  induction ixs as [|ix ixs IH]; intros ds i sets pairs H; [reflexivity|]. destruct ds as [|d ds]; [reflexivity|].
+  cbn [key_mod_from] in H. apply orb_false_iff in H. destruct H as [H1 H2]. cbn [idx_upd_from]. rewrite H1, (IH _ _ _ _ H2). reflexivity.
+Qed.
+
+(* under side condition 12 the check among the rows of the statement never fires *)
+Lemma dup_none all ts sets sel : forall ds i,
+  two_plus sel = true -> upd_key_class_from all ds i ts sets sel = 0 -> dup_in_stmt ds i sets = false.
+Proof.
+  induction ds as [|d ds IH]; intros i Htp Hc; [reflexivity|].
+  destruct (upd_key_class_split _ _ _ _ _ _ _ Hc) as [C1 C2]. cbn [dup_in_stmt]. rewrite (IH (S i) Htp C2), orb_false_r.
+  cbn [upd_key_class_from] in C1. destruct (assoc_set i sets) as [nv|]; [|apply andb_false_r].
+  assert (Hne : nonempty_l sel = true) by (destruct sel as [|? [|? ?]]; try discriminate; reflexivity).
+  rewrite Hne, Htp in C1. rewrite andb_true_r in C1.
+  destruct (is_key d && negb (is_null nv)) eqn:E; [discriminate|]. reflexivity.
 Qed.
 
 Theorem update_exact_l sch st t sets w :
@@ -757,7 +745,10 @@ Proof.
   { unfold exec_write. cbn [apply_stmt]. rewrite Hval. reflexivity. }
   (* the accepted case: the state with the rows rewritten and the indexes maintained *)
   set (ts' := mkT (rewrite_rows sel sets (ents ts))
-                  (idx_upd_from (idxs ts) ds ds 0 sets (map (fun e => (e_row e, upd_row sets (e_row e))) sel))).
+                  (idx_upd_from (idxs ts) ds 0 sets (map (fun e => (e_id e, e_row e, upd_row sets (e_row e))) sel))).
+  assert (Hdup : negb (match sel with _ :: _ :: _ => dup_in_stmt ds 0 sets | _ => false end) = true).
+  { destruct sel as [|e1 [|e2 l]] eqn:Es; try reflexivity.
+    rewrite (dup_none ds ts sets (e1 :: e2 :: l) ds 0%nat eq_refl CK). reflexivity. }
   assert (Hacc : forallb (row_ok ds) news = true -> uq = true ->
                  exec_write sch (abs_db st) (SUpd t sets w) = (true, abs_db (set_ts st t ts')) /\ Inv sch (set_ts st t ts')).
   { intros Hok Huq.
@@ -767,11 +758,7 @@ Proof.
         rewrite visible_rewrite by exact Hnd; reflexivity. }
     split.
     - rewrite Hexec, Hok, Huq. cbn [andb]. rewrite Habs. reflexivity.
-    - assert (Hst : pk_pos ds <> None -> forall e, In e sel -> stored_pk ds (upd_row sets (e_row e)) <> None).
-      { intros Hpk e He. apply stored_pk_some; [|  |exact Hpk].
-        - apply (proj1 (forallb_forall _ _) Hok). unfold news. apply (in_map (fun e0 => upd_row sets (e_row e0))). exact He.
-        - apply (proj1 (forallb_forall _ _) Hfit). unfold news. apply (in_map (fun e0 => upd_row sets (e_row e0))). exact He. }
-      pose proof (tinv_upd ds ts (d_next st) sets w T Hu Hs CK Hst) as T'. fold sel ts' in T'.
+    - pose proof (tinv_upd ds ts (d_next st) sets w T Hu Hs CK) as T'. fold sel ts' in T'.
       constructor.
       + rewrite Habs. rewrite Hval, Hok, Huq. reflexivity.
       + unfold ds, ts in *. destruct t; cbn [set_ts d_p d_next cols_of ts_of] in *; [exact T'|exact (inv_p _ _ I)].
@@ -786,7 +773,7 @@ Proof.
     + (* multi-pass through the index path *)
       assert (Hsr : select_rows ds ts w = sel) by (unfold upd_sel in Hsel; rewrite P, KM in Hsel; exact Hsel).
       rewrite Hsr. fold news. rewrite Hva. destruct (forallb (row_ok ds) news) eqn:Hok.
-      * fold uq. destruct uq eqn:Huq.
+      * fold uq. rewrite Hdup, andb_true_r. destruct uq eqn:Huq.
         -- exists true, (set_ts st t ts'). split; [reflexivity|]. apply Hacc; reflexivity.
         -- exists false, st. split; [reflexivity|]. split; [apply Hrej; reflexivity|exact I].
       * exists false, st. split; [reflexivity|]. split; [apply Hrej; reflexivity|exact I].
@@ -803,7 +790,7 @@ Proof.
         unfold ts in Hf. rewrite abs_tab, (upd_tab_none sets w _ Hf), <- abs_tab, set_tab_same. reflexivity.
       * assert (Hn : news = [upd_row sets (e_row e)]) by (unfold news; rewrite <- Hsel; reflexivity).
         assert (Hts' : mkT (rewrite_rows [e] sets (ents ts)) (idxs ts) = ts').
-        { unfold ts'. rewrite <- Hsel. rewrite (idx_upd_nomod _ ds ds 0 sets _ KM). reflexivity. }
+        { unfold ts'. rewrite <- Hsel. rewrite (idx_upd_nomod _ ds 0 sets _ KM). reflexivity. }
         assert (Hf1 : row_fits (length ds) (upd_row sets (e_row e)) = true).
         { rewrite Hn in Hfit. cbn [forallb] in Hfit. apply andb_true_iff in Hfit. tauto. }
         rewrite (validate_new_agree ds _ (cols_len sch t W) (cols_frag sch t W) Hf1).
@@ -813,7 +800,7 @@ Proof.
   - (* multi-pass, scan *)
     assert (Hsr : select_rows ds ts w = sel) by (unfold upd_sel in Hsel; rewrite P in Hsel; exact Hsel).
     rewrite Hsr. fold news. rewrite Hva. destruct (forallb (row_ok ds) news) eqn:Hok.
-    + fold uq. destruct uq eqn:Huq.
+    + fold uq. rewrite Hdup, andb_true_r. destruct uq eqn:Huq.
       * exists true, (set_ts st t ts'). split; [reflexivity|]. apply Hacc; reflexivity.
       * exists false, st. split; [reflexivity|]. split; [apply Hrej; reflexivity|exact I].
     + exists false, st. split; [reflexivity|]. split; [apply Hrej; reflexivity|exact I].
